@@ -12,6 +12,11 @@ try:
     PYSTEPS["thread_c06"] = steps_thread.run_c06
 except Exception as _e:
     steps_thread = None
+try:
+    import steps_clock
+    PYSTEPS["c19_vdso"] = steps_clock.c19_vdso
+except Exception as _e:
+    steps_clock = None
 
 def _s(pkg, phase=None, **kw):
     d = dict(pkg=pkg, bin=kw.pop("bin", pkg), phase=phase)
@@ -78,9 +83,12 @@ PROPS = {
         steps=[_s("h-time", "arith"),
                _s("h-time", "arith", profile="nochk", name="arith-nochk"),
                _s("h-time", "clock"),
-               _s("h-misc", "sleep")],
+               _s("h-misc", "sleep"),
+               dict(kind="py", fn="c19_vdso", name="vdso-clock-identity", pkg="probe-clock", bin="probe-clock", phase=None,
+                    builds=(steps_clock.SETUP_BUILDS if steps_clock else []))],
         assumptions=["operations are piecewise-linear in (sec,nsec) with comparisons against 0, 10^9 and the i64/u64 limits; the grid holds the +-2 (thorough +-3) neighbourhood of each",
-                     "monotonic clock and real sleep are SAMPLED (labelled so); exactness is exhaustive over the grid, not over the 2^128 domain"],
+                     "monotonic clock and real sleep are SAMPLED (labelled so); exactness is exhaustive over the grid, not over the 2^128 domain",
+                     "vDSO/syscall clock identity (no-libc probe started through tiny-start): cells (link mode x entry point x path) enumerated, readings inside a cell sampled, each sandwiched between two raw clock_gettime system calls"],
     ),
     "C20": dict(
         level="exploration",
@@ -112,7 +120,7 @@ PROPS = {
         level="fault_enumeration",
         technique="forced-value fault enumeration over the syscall seam (SUD) on the real rusl wrappers; exhaustive over all errno values and the stated success value sets; wrapper table checked against a build-time source scan",
         steps=[_s("h-sys", "c09")],
-        assumptions=["one invocation per wrapper with fixed harmless arguments (result decoding in these wrappers does not depend on the arguments; mount is invoked with and without data, nanosleep with and without rem)",
+        assumptions=["per wrapper one invocation with fixed harmless arguments plus argument-shape variants (#eq: equal descriptors / paths, #len0: empty slices and zero counts; mount with and without data, nanosleep with and without rem); a branch keyed on some other argument value is not entered; every issued call must be the wrapper's own system call number",
                      "the suppressed kernel's out-parameters are zero/plausibly filled by the plan (pipe2 fds 3,4)",
                      "process::exit (never returns) and the composite setup_io_uring are excluded; wrappers without an error channel only get non-error values"],
     ),
